@@ -79,6 +79,9 @@ func c09Case(t *rapid.T, test string, many bool) {
 			// window comes round again must survive a restart as well
 			nb = rapid.IntRange(26, scale(60, 120)).Draw(t, "nBlocksLong")
 		}
+		if many && nb > 12 {
+			nb = 12 // a block of a 100-candidate world costs ten times an ordinary one
+		}
 		for i := 0; i < nb; i++ {
 			// restart before this block? (possibly several times in a row)
 			// (never before the first committed block: InitChain leaves uncommitted validator-set
